@@ -50,6 +50,7 @@ type CheckCfg struct {
 	Assumptions []string           `json:"assumptions"`  // free text, copied into evidence
 	Outside     []string           `json:"outside"`      // free text: outside the claim
 	Overlays    map[string]string  `json:"src_overlays"`
+	MaxCex      int      `json:"max_cex"`      // stop a harness after this many counterexamples (default 12)
 	CrossSolver []string `json:"cross_solver"` // thorough tier: these harnesses are re-run with z3 4.8.12 (pipe) and cvc5 and the verdicts compared
 	FuncStubs map[string]string `json:"func_stubs"` // engine-only replacement of a function under test by a harness function (native replay runs the real one)
 	HarnessFrom string `json:"harness_from"` // take the harness .go files from another property's directory
@@ -98,6 +99,9 @@ func readCfg(prop string) (*CheckCfg, error) {
 	var c CheckCfg
 	if err := json.Unmarshal(data, &c); err != nil {
 		return nil, fmt.Errorf("check.json: %v", err)
+	}
+	if c.MaxCex > 0 {
+		vexec.MaxCex = c.MaxCex
 	}
 	return &c, nil
 }
